@@ -35,6 +35,11 @@ class Index:
     def tolist(self):
         return list(self.data)
 
+    def sort_values(self):
+        out = type(self)(sorted(self.data))
+        out.name, out.names = self.name, list(self.names)
+        return out
+
     def __getitem__(self, i):
         return self.data[i]
 
